@@ -7,4 +7,5 @@ THEOREMS = [
     "Pt.pad_accesses_inbounds", "Pt.einsum_accesses_inbounds",
     "Pt.advindex_accesses_affine_inbounds",
     "Pt.binop_accesses_inbounds", "Pt.where_accesses_inbounds", "Pt.reduce_accesses_inbounds",
+    "Pt.constructors_access_free", "Pt.csr_accesses_inbounds",
 ]
